@@ -493,4 +493,275 @@ theorem mgmtProcess_outs {conn : Option Conn} {src fid : Nat} {f : Frame} {r : O
       cases f <;> simp at h <;> subst h <;> simp [ackPart]
       split <;> simp [ackPart]
 
+
+/-! ### Outgoing numbering -/
+
+/-- The number that may still be repeated: the first transmission is out and unacknowledged. -/
+def Conn.rep (c : Conn) : Option Nat :=
+  match c.stage with
+  | .ackWait _ k n _ _ _ => if k = 1 then some n else none
+  | _ => none
+
+theorem tick_conn_num {s : St} {t : Nat} {s1 : St} {c : Conn} (h : tick s t = some s1) (hc : s.conn = some c) :
+    ∃ c1, s1.conn = some c1 ∧ c1.sendSeq = c.sendSeq ∧ (c1.rep = c.rep ∨ c1.rep = none) := by
+  cases tick_spec h with
+  | same => exact ⟨c, hc, rfl, Or.inl rfl⟩
+  | noConn _ _ hn => rw [hn] at hc; simp at hc
+  | conn c0 _ _ hc0 _ _ =>
+    rw [hc0] at hc; simp only [Option.some.injEq] at hc; subst hc
+    refine ⟨_, rfl, ?_, ?_⟩
+    · rw [(expire_fields _ t).2.1]
+      rcases silent_cases c0 s.now with h1 | ⟨t0, k, n, a, e, dl, _, _, _, h1⟩ <;> rw [h1]
+    · unfold Conn.rep
+      rw [expire_stage]
+      rcases silent_cases c0 s.now with h1 | ⟨t0, k, n, a, e, dl, _, _, _, h1⟩ <;> rw [h1]
+      · left; rfl
+      · right; rfl
+
+theorem process_rep {c : Conn} {fid : Nat} {f : Frame} {c' : Conn} (h : c.process fid f = .ok c') :
+    c'.rep = c.rep := by
+  unfold Conn.rep; rw [(process_fields h).1]
+
+/-- What one observation (other than open / close) does to the outgoing numbering. -/
+theorem core_conn_num {s1 : St} {o : Obs} {s' : St} {c : Conn} (h : core s1 o = some s') (hc : s1.conn = some c)
+    (hno : (∀ t b, o ≠ .opened t b) ∧ (∀ t r, o ≠ .closed t r)) :
+    ∃ c', s'.conn = some c' ∧
+      match o with
+      | .txData _ n _ =>
+        (n = c.sendSeq ∧ c'.sendSeq = nextSeq c.sendSeq ∧ c'.rep = some n) ∨
+        (c.rep = some n ∧ c'.sendSeq = c.sendSeq ∧ c'.rep = none)
+      | _ => c'.sendSeq = c.sendSeq ∧ (c'.rep = c.rep ∨ c'.rep = none) := by
+  cases o <;> simp only [core] at h
+  case opened t ok => exact absurd rfl (hno.1 t ok)
+  case closed t r => exact absurd rfl (hno.2 t r)
+  case req t a e =>
+    unfold onReq at h; rw [hc] at h; simp only at h
+    split at h <;> simp at h; subst h
+    exact ⟨_, rfl, rfl, Or.inr rfl⟩
+  case res t o =>
+    unfold onRes at h; rw [hc] at h; simp only at h
+    split at h <;> (try split at h) <;> simp at h; subst h
+    rename_i o' c' hres _
+    obtain ⟨r1, _, r3, _⟩ := result_spec hres
+    exact ⟨c', rfl, r3, Or.inr (by unfold Conn.rep; rw [r1])⟩
+  case txData t n a =>
+    unfold onTxData at h; rw [hc] at h; simp only at h
+    split at h <;> (try split at h) <;> simp at h <;> subst h
+    · rename_i t0 tSend a' e hst hcond
+      exact ⟨_, rfl, Or.inl ⟨hcond.2.2.1, rfl, by simp [Conn.rep]⟩⟩
+    · rename_i t0 k n' a' e dl hst hcond
+      obtain ⟨hk, _, _, hn, _⟩ := hcond
+      subst hk; subst hn
+      exact ⟨_, rfl, Or.inr ⟨by simp [Conn.rep, hst], rfl, by simp [Conn.rep]⟩⟩
+  case txAck t d n =>
+    unfold onTx at h; split at h <;> simp at h; subst h; exact ⟨c, hc, rfl, Or.inl rfl⟩
+  case txDisc t d =>
+    unfold onTx at h; split at h <;> simp at h; subst h; exact ⟨c, hc, rfl, Or.inl rfl⟩
+  case rx t src fid f hcn cn e =>
+    unfold onRx at h; split at h <;> (try split at h) <;> simp at h; subst h
+    rename_i _ _ conn' outs hp
+    rcases mgmtProcess_conn hp with h1 | ⟨c0, c1, _, hc0, hpr, h1⟩
+    · simp only at h1; exact ⟨c, by simp only; rw [h1]; exact hc, rfl, Or.inl rfl⟩
+    · simp only at h1
+      rw [hc] at hc0; simp only [Option.some.injEq] at hc0; subst hc0
+      exact ⟨c1, by simp only; exact h1, (process_fields hpr).2.1, Or.inl (process_rep hpr)⟩
+  case fin t =>
+    unfold onFin at h; split at h <;> simp at h; subst h; exact ⟨c, hc, rfl, Or.inl rfl⟩
+
+
+/-! ### How the response waiter and the request stage evolve -/
+
+theorem tick_conn_back {s : St} {t : Nat} {s1 : St} {c1 : Conn} (h : tick s t = some s1) (hc1 : s1.conn = some c1) :
+    ∃ c, s.conn = some c ∧ c1.stage.start = c.stage.start ∧ c1.stage.expect = c.stage.expect ∧
+      (c1.respW = c.respW ∨ (c.respW = .pending ∧ c1.respW = .expired)) ∧ s.now ≤ s1.now := by
+  cases tick_spec h with
+  | same => exact ⟨c1, hc1, rfl, rfl, Or.inl rfl, Nat.le_refl _⟩
+  | noConn _ _ hn => simp only at hc1; rw [hn] at hc1; simp at hc1
+  | conn c0 hlt _ hc0 _ _ =>
+    simp only [Option.some.injEq] at hc1; subst hc1
+    refine ⟨c0, hc0, ?_, ?_, ?_, Nat.le_of_lt hlt⟩
+    · rw [expire_stage]
+      rcases silent_cases c0 s.now with h1 | ⟨t0, k, n, a, e, dl, hs, _, _, h1⟩ <;> rw [h1]
+      simp [Stage.start, hs]
+    · rw [expire_stage]
+      rcases silent_cases c0 s.now with h1 | ⟨t0, k, n, a, e, dl, hs, _, _, h1⟩ <;> rw [h1]
+      simp [Stage.expect, hs]
+    · have hsil : (c0.silent s.now).respW = c0.respW := by
+        rcases silent_cases c0 s.now with h1 | ⟨t0, k, n, a, e, dl, hs, _, _, h1⟩ <;> rw [h1]
+      rcases expire_respW (c0.silent s.now) t with h2 | ⟨h2, h3⟩
+      · left; rw [h2, hsil]
+      · right; exact ⟨by rw [← hsil]; exact h2, h3⟩
+
+theorem process_respW {c : Conn} {fid : Nat} {f : Frame} {c' : Conn} (h : c.process fid f = .ok c') :
+    c'.respW = c.respW ∨ c'.respW = .refused ∨
+    (∃ n a, f = .data n a ∧ n = c.exp ∧ c'.respW = .got fid n a) := by
+  cases f <;> simp only [Conn.process] at h
+  case disconnect =>
+    by_cases h1 : c.ackW = .pending <;> by_cases h2 : c.respW = .pending <;>
+      simp [h1, h2, AckW.setException, RespW.setException, Except.map, bind, Except.bind] at h <;>
+      subst h <;> simp
+  case ack n =>
+    by_cases h1 : c.ackW = .pending <;> simp [h1, AckW.setResult, Except.map] at h <;> subst h <;> simp
+  case nak n =>
+    by_cases h1 : c.ackW = .pending <;> simp [h1, AckW.setResult, Except.map] at h <;> subst h <;> simp
+  case data n apdu =>
+    by_cases h1 : c.respW = .pending
+    · by_cases h2 : n = c.exp
+      · simp [h1, h2, RespW.setResult, Except.map] at h; subst h
+        right; right; exact ⟨n, apdu, rfl, h2, by simp [h2]⟩
+      · simp [h1, h2] at h; subst h; simp
+    · simp [h1] at h; subst h; simp
+  all_goals (cases h; simp)
+
+/-- One observation, seen from the connection that exists afterwards. -/
+inductive RespStep (s : St) (o : Obs) (c' : Conn) : Prop
+  | dead : (c'.respW = .pending ∨ c'.respW = .refused ∨ c'.respW = .expired) → RespStep s o c'
+  | keep (c : Conn) : s.conn = some c → c'.respW = c.respW → RespStep s o c'
+  | got (c : Conn) (t fid n a : Nat) (cn : Bool) : s.conn = some c →
+      o = .rx t 0 fid (.data n a) true cn n → c'.respW = .got fid n a → RespStep s o c'
+
+theorem step_respW {s : St} {o : Obs} {s' : St} {c' : Conn} (h : step? s o = some s') (hc' : s'.conn = some c') :
+    RespStep s o c' := by
+  obtain ⟨s1, h1, h2⟩ := step?_eq_some h
+  -- the connection after `tick`, related to the one before
+  have back : ∀ c1, s1.conn = some c1 → c'.respW = c1.respW → RespStep s o c' := by
+    intro c1 hc1 heq
+    obtain ⟨c, hc, _, _, hr, _⟩ := tick_conn_back h1 hc1
+    rcases hr with hr | ⟨_, hr⟩
+    · exact .keep c hc (by rw [heq, hr])
+    · exact .dead (Or.inr (Or.inr (by rw [heq, hr])))
+  cases o <;> simp only [core] at h2
+  case opened t ok =>
+    unfold onOpened at h2; split at h2 <;> simp at h2 <;> subst h2
+    · simp at hc'; subst hc'; exact .dead (Or.inl rfl)
+    · exact back c' hc' rfl
+  case closed t r =>
+    unfold onClosed at h2; split at h2 <;> split at h2 <;> simp at h2 <;> subst h2
+    · exact back c' hc' rfl
+    · simp at hc'
+  case req t a e =>
+    unfold onReq at h2; split at h2 <;> (try split at h2) <;> simp at h2; subst h2
+    rename_i c hc _
+    simp at hc'; subst hc'
+    exact back c hc rfl
+  case res t o =>
+    unfold onRes at h2; split at h2 <;> (try split at h2) <;> (try split at h2) <;> simp at h2; subst h2
+    rename_i c hc _ o' c1 hres _
+    simp at hc'; subst hc'
+    obtain ⟨_, _, _, _, r5, _⟩ := result_spec hres
+    rcases r5 with r5 | r5
+    · exact back c hc r5
+    · exact .dead (Or.inl r5)
+  case txData t n a =>
+    unfold onTxData at h2; split at h2 <;> (try split at h2) <;> (try split at h2) <;> simp at h2 <;> subst h2
+    · rename_i c hc _ t0 tSend a' e hst hcond
+      simp at hc'; subst hc'; exact back c hc rfl
+    · rename_i c hc _ t0 k n' a' e dl hst hcond
+      simp at hc'; subst hc'; exact back c hc rfl
+  case txAck t d n => unfold onTx at h2; split at h2 <;> simp at h2; subst h2; exact back c' hc' rfl
+  case txDisc t d => unfold onTx at h2; split at h2 <;> simp at h2; subst h2; exact back c' hc' rfl
+  case rx t src fid f hcn cn e =>
+    unfold onRx at h2; split at h2 <;> (try split at h2) <;> simp at h2; subst h2
+    rename_i hpre _ conn' outs hp
+    simp only at hc'
+    rcases mgmtProcess_conn hp with hsame | ⟨c0, c1, hsrc, hc0, hpr, hres⟩
+    · simp only at hsame; rw [hsame] at hc'; exact back c' hc' rfl
+    · simp only at hres; rw [hres] at hc'; simp only [Option.some.injEq] at hc'; subst hc'
+      rcases process_respW hpr with hr | hr | ⟨n, a, hf, hn, hr⟩
+      · exact back c0 hc0 hr
+      · exact .dead (Or.inr (Or.inl hr))
+      · subst hsrc; subst hf
+        obtain ⟨c, hc, _, _, _, _⟩ := tick_conn_back h1 hc0
+        unfold preOk at hpre
+        simp only [if_true, hc0, Bool.and_eq_true, beq_iff_eq] at hpre
+        obtain ⟨⟨hh, _⟩, he⟩ := hpre
+        subst hh
+        refine .got c t fid n a cn hc ?_ hr
+        rw [he, hn]
+  case fin t => unfold onFin at h2; split at h2 <;> simp at h2; subst h2; exact back c' hc' rfl
+
+/-- Stage of the connection after one observation. -/
+theorem step_stage {s : St} {o : Obs} {s' : St} {c' : Conn} (h : step? s o = some s') (hc' : s'.conn = some c') :
+    c'.stage = .idle ∨
+    (∃ a e, o = .req o.time a e ∧ c'.stage.start = some o.time ∧ c'.stage.expect = some e) ∨
+    (∃ c, s.conn = some c ∧ c'.stage.start = c.stage.start ∧ c'.stage.expect = c.stage.expect) := by
+  obtain ⟨s1, h1, h2⟩ := step?_eq_some h
+  have hnow := tick_now h1
+  have back : ∀ c1, s1.conn = some c1 → c'.stage.start = c1.stage.start → c'.stage.expect = c1.stage.expect →
+      ∃ c, s.conn = some c ∧ c'.stage.start = c.stage.start ∧ c'.stage.expect = c.stage.expect := by
+    intro c1 hc1 hs he
+    obtain ⟨c, hc, hs', he', _, _⟩ := tick_conn_back h1 hc1
+    exact ⟨c, hc, by rw [hs, hs'], by rw [he, he']⟩
+  cases o <;> simp only [core] at h2
+  case opened t ok =>
+    unfold onOpened at h2; split at h2 <;> simp at h2 <;> subst h2
+    · simp at hc'; subst hc'; exact Or.inl rfl
+    · exact Or.inr (Or.inr (back c' hc' rfl rfl))
+  case closed t r =>
+    unfold onClosed at h2; split at h2 <;> split at h2 <;> simp at h2 <;> subst h2
+    · exact Or.inr (Or.inr (back c' hc' rfl rfl))
+    · simp at hc'
+  case req t a e =>
+    unfold onReq at h2; split at h2 <;> (try split at h2) <;> simp at h2; subst h2
+    simp at hc'; subst hc'
+    simp only [Obs.time] at hnow
+    exact Or.inr (Or.inl ⟨a, e, rfl, by simp [Stage.start, Obs.time, hnow], by simp [Stage.expect]⟩)
+  case res t o =>
+    unfold onRes at h2; split at h2 <;> (try split at h2) <;> (try split at h2) <;> simp at h2; subst h2
+    rename_i c hc _ o' c1 hres _
+    simp at hc'; subst hc'
+    exact Or.inl (result_spec hres).1
+  case txData t n a =>
+    unfold onTxData at h2; split at h2 <;> (try split at h2) <;> (try split at h2) <;> simp at h2 <;> subst h2
+    · rename_i c hc _ t0 tSend a' e hst hcond
+      simp at hc'; subst hc'
+      exact Or.inr (Or.inr (back c hc (by simp [Stage.start, hst]) (by simp [Stage.expect, hst])))
+    · rename_i c hc _ t0 k n' a' e dl hst hcond
+      simp at hc'; subst hc'
+      exact Or.inr (Or.inr (back c hc (by simp [Stage.start, hst]) (by simp [Stage.expect, hst])))
+  case txAck t d n =>
+    unfold onTx at h2; split at h2 <;> simp at h2; subst h2; exact Or.inr (Or.inr (back c' hc' rfl rfl))
+  case txDisc t d =>
+    unfold onTx at h2; split at h2 <;> simp at h2; subst h2; exact Or.inr (Or.inr (back c' hc' rfl rfl))
+  case rx t src fid f hcn cn e =>
+    unfold onRx at h2; split at h2 <;> (try split at h2) <;> simp at h2; subst h2
+    rename_i hpre _ conn' outs hp
+    simp only at hc'
+    rcases mgmtProcess_conn hp with hsame | ⟨c0, c1, hsrc, hc0, hpr, hres⟩
+    · simp only at hsame; rw [hsame] at hc'; exact Or.inr (Or.inr (back c' hc' rfl rfl))
+    · simp only at hres; rw [hres] at hc'; simp only [Option.some.injEq] at hc'; subst hc'
+      have := (process_fields hpr).1
+      exact Or.inr (Or.inr (back c0 hc0 (by rw [this]) (by rw [this])))
+  case fin t =>
+    unfold onFin at h2; split at h2 <;> simp at h2; subst h2; exact Or.inr (Or.inr (back c' hc' rfl rfl))
+
+/-- A result observation: what the connection looked like before it. -/
+theorem step_res {s : St} {t : Nat} {o : Outcome} {s' : St} (h : step? s (.res t o) = some s') :
+    ∃ c t0 e, s.conn = some c ∧ c.stage.start = some t0 ∧ c.stage.expect = some e ∧
+      (∀ fid n a, o = .ok fid n a → c.respW = .got fid n a ∧ typeOk e a = true) := by
+  obtain ⟨s1, h1, h2⟩ := step?_eq_some h
+  simp only [core] at h2
+  unfold onRes at h2; split at h2 <;> (try split at h2) <;> (try split at h2) <;> simp at h2; subst h2
+  rename_i c1 hc1 _ o' c2 hres ho
+  subst ho
+  obtain ⟨_, _, _, _, _, _, t0, e, hs, he, hok⟩ := result_spec hres
+  obtain ⟨c, hc, hs', he', hr, _⟩ := tick_conn_back h1 hc1
+  refine ⟨c, t0, e, hc, by rw [← hs', hs], by rw [← he', he], ?_⟩
+  intro fid n a ho
+  obtain ⟨hg, ht, _⟩ := hok fid n a ho
+  refine ⟨?_, ht⟩
+  rcases hr with hr | ⟨_, hr⟩
+  · rw [← hr]; exact hg
+  · rw [hr] at hg; simp at hg
+
+theorem connOk_bound {now rate : Nat} {c : Conn} {t0 : Nat} (h : ConnOk now rate c) (hs : c.stage.start = some t0) :
+    t0 ≤ now ∧ now ≤ t0 + rate + 2 * ACK + CONN := by
+  obtain ⟨_, _, _, hst⟩ := h
+  cases hstage : c.stage <;> rw [hstage] at hs hst <;> simp only [Stage.start, Option.some.injEq] at hs <;>
+    (try subst hs) <;> simp only [StageOk] at hst
+  · simp at hs
+  · omega
+  · omega
+  · omega
+
 end XknxVerif.P2P
